@@ -36,6 +36,7 @@ inductive Res (α : Type) where
   | ok (v : α) (rest : Bytes)
   | err (e : Err)
   | panic
+  deriving DecidableEq
 
 /-- length of the unread input after a successful decode, 0 otherwise -/
 def Res.restLen : Res α → Nat
@@ -79,6 +80,15 @@ def allocD (n : Nat) : Dec Unit := fun b => ⟨.ok () b, n⟩
 
 /-- `len(buf)` -/
 def lenD : Dec Nat := fun b => ⟨.ok b.length b, 0⟩
+
+/-- `n ≤ len(buf)`, computed by walking at most `n` cells (the driver runs this on long inputs) -/
+def hasLen : Nat → Bytes → Bool
+  | 0, _ => true
+  | _ + 1, [] => false
+  | n + 1, _ :: t => hasLen n t
+
+/-- `if len(buf) < n { return err }` -/
+def needD (n : Nat) (e : Err) : Dec Unit := fun b => if hasLen n b then ⟨.ok () b, 0⟩ else ⟨.err e, 0⟩
 
 /-- `x := buf[:n]; buf = buf[n:]` — **panics** when `n > len(buf)` -/
 def slice (n : Nat) : Dec Bytes := fun b =>
@@ -140,15 +150,13 @@ def sizeOfFirst (b : Nat) : Nat :=
 /-- `Varint.Unmarshal` (`stream = false`) and `Varint.Read` on a byte stream (`stream = true`: the
 `make([]byte, size-1)` happens before the read). -/
 def varint (stream : Bool := false) : Dec Nat := do
-  let l ← lenD
-  guardD (l != 0) .short
+  needD 1 .short
   let b0 ← byte0
   let n := sizeOfFirst b0.toNat
   if n == 1 then pure b0.toNat
   else do
     allocD (if stream then n - 1 else 0)
-    let l ← lenD
-    guardD (n - 1 ≤ l) .short
+    needD (n - 1) .short
     let rest ← slice (n - 1)
     pure ((b0.toNat - prefixOf n) * 256 ^ (n - 1) + beNat rest)
 
@@ -168,8 +176,7 @@ def bytesLP (max : Nat) (mode : AllocMode) (stream : Bool := false) : Dec Bytes 
   let n ← varint stream
   guardD (n ≤ max) .tooLarge
   allocD (if mode == .pre then n else 0)
-  let l ← lenD
-  guardD (n ≤ l) .short
+  needD n .short
   allocD (if mode == .post then n else 0)
   slice n
 
